@@ -226,12 +226,14 @@ def binaryMode (kv : List (Bytes × Bytes)) : Bool :=
   | none => false
   | some v => !(v = ascii "false" || v = ascii "0")
 
-/-- The text loop of `doMPUB` over the blocks of the (limited) body; `last` marks the block at
-which `total` reaches the limit. Returns the bodies or the 413 message. -/
+/-- The text loop of `doMPUB` over the blocks of the (limited) body. `total` reaches the length of
+the data at the block that holds its last byte: the last block, or the one before it when the data
+ends with `\n`; when the data fills the limited reader (`over`) that block answers BODY_TOO_BIG
+before its own size is looked at. Returns the bodies or the 413 message. -/
 def textLoop (maxMsg : Int) (over : Bool) : List Bytes → Except String (List Bytes)
   | [] => .ok []
   | blk :: rest =>
-    if rest.isEmpty && over then .error "BODY_TOO_BIG"
+    if over && (rest.isEmpty || rest == [[]]) then .error "BODY_TOO_BIG"
     else if blk.isEmpty then textLoop maxMsg over rest
     else if (blk.length : Int) > maxMsg then .error "MSG_TOO_BIG"
     else
